@@ -90,9 +90,32 @@ def _write_if_changed(path, content):
         f.write(content)
 
 
+def ensure_lock():
+    """Scratch worktrees of the repository have no Cargo.lock (it is git-ignored upstream)."""
+    lock = os.path.join(REPO, "Cargo.lock")
+    if not os.path.exists(lock):
+        for cand in ("/repo/Cargo.lock", os.path.join(ROOT, "dxmon", "Cargo.lock.seed")):
+            if os.path.exists(cand):
+                shutil.copy(cand, lock)
+                break
+    return lock
+
+
 _built = {}
+import threading
+_build_lock = threading.RLock()
 
 
+def _locked(fn):
+    def w(*a, **k):
+        with _build_lock:
+            return fn(*a, **k)
+    w.__name__ = fn.__name__
+    w.__doc__ = fn.__doc__
+    return w
+
+
+@_locked
 def build_a():
     """Build A: the working tree's expander as an ordinary library (hooks ON) + dxmon."""
     if "a" in _built:
@@ -103,7 +126,7 @@ def build_a():
                       _MANIFEST.format(repo=REPO, root=ROOT, guard=GUARD))
     lock = os.path.join(ws, "Cargo.lock")
     if not os.path.exists(lock):
-        shutil.copy(os.path.join(REPO, "Cargo.lock"), lock)
+        shutil.copy(ensure_lock(), lock)
     env = dict(ENV)
     env["RUSTFLAGS"] = f"--cfg {GUARD}"
     tdir = os.path.join(CACHE, "target-mon-" + TAG)
@@ -118,11 +141,13 @@ def build_a():
     return exe
 
 
+@_locked
 def build_b():
     """Build B: the real proc-macro dylib of the working tree, guard OFF."""
     if "b" in _built:
         return _built["b"]
     tdir = os.path.join(CACHE, "target-pm-" + TAG)
+    ensure_lock()
     t0 = time.time()
     r = sh(["cargo", "build", "-p", "derive-ex", "--offline", "--manifest-path",
             os.path.join(REPO, "Cargo.toml"), "--target-dir", tdir,
@@ -149,6 +174,7 @@ def build_b():
     return dst
 
 
+@_locked
 def build_rt():
     """dxrt: probe types / recorders shared by all generated programs."""
     if "rt" in _built:
@@ -413,6 +439,8 @@ def run_batch(exe, cases, timeout=600):
 def run_cases(cases, tag, header="", batch_size=60, runnable=True, metadata_only=False,
               deny_warnings=False, extra_items="", keep=False, keep_warnings=False):
     """Split into batches, compile + run them on NPROC workers.  Returns (global events, inconclusive notes)."""
+    build_b()
+    build_rt()
     work = tempfile.mkdtemp(prefix=f"dx-{tag}-", dir=_scratch())
     batches = [cases[i:i + batch_size] for i in range(0, len(cases), batch_size)]
     notes = []
@@ -505,7 +533,7 @@ class Report:
     def inconcl(self, note):
         self.inconclusive.append(str(note)[:600])
 
-    def finish(self, floor=1):
+    def finish(self, floor=1, harness_failed=False):
         """Write evidence, print verdict lines, return the process exit code."""
         known = [k for k in load_known() if k.get("property") == self.pid and k.get("status") == "known"]
         known_sigs = {k["signature"]: k for k in known}
@@ -540,6 +568,8 @@ class Report:
         dn = len(self.nontrivial)
         if rc == 0 and (self.evaluations < floor or dn < 2):
             print(f"INCONCLUSIVE property={self.pid} observed too little: evaluations={self.evaluations} distinct_nontrivial={dn} (floor {floor})")
+            rc = 2
+        if rc == 0 and harness_failed:
             rc = 2
         if rc == 0 and self.canary is False:
             print(f"INCONCLUSIVE property={self.pid} canary was not detected by the checker")
